@@ -24,12 +24,15 @@ Statements.
   one scaled value), in states that have assigned the same hashes: they stop together; when both report, both
   reported sketches attain the same maximal overlap (they are picked from the same arg-max set); and given
   the same pick all numbers coincide and the successor states are again related.  Under C07's `NoD6`.
-* `mode_equiv_partial` (prefetch mode vs on-demand mode): proved for `threshold_bp = 0`; for positive
-  thresholds stated only (see the comment block); FALSE without `NoD6` (`gather_modes_differ_under_d6`);
-  the `partition` stream compares the two modes on every case.
+* `mode_equiv` (prefetch mode vs on-demand mode): proved for every input without D6 (`threshold_bp = 0`, or a
+  query at least as coarse as the database; `threshold_bp ≤ 2^50`, sizes below `2^50`): both modes' float
+  threshold tests are the integer test `threshold_bp ≤ k · scaled` (C06's analysis of the correctly rounded
+  quotient).  FALSE for a query finer than the database with a positive threshold
+  (`gather_modes_differ_under_d6`, finding D6m); the `partition` stream compares the two modes on every case.
 -/
 import SmVerif.Lemmas.SearchDbExamples
 import SmVerif.Lemmas.GatherRatOps
+import SmVerif.Lemmas.GatherModesT
 
 set_option autoImplicit false
 
@@ -154,23 +157,22 @@ theorem gather_partition_init {sq sd : Nat} {g0 h0 : GD LS} {q : LS} {thr : Nat}
     (tg : g0.thresholdBp = thr) (th : h0.thresholdBp = thr) : Rel sq sd g0 h0 :=
   ⟨by rw [hg, hh], by rw [rg, rh], by rw [og, oh], ab, tr, by rw [tg, th]⟩
 
-/- FULL STATEMENT (not proved): mode_equiv for every threshold_bp — a prefetch-mode run (`counter_gather` +
-   `CounterGather.peek`) and an on-demand run (`Index.peek` = `best_containment` each round) over the same
-   sketches satisfy the conclusion of `gather_partition`.
-   Proved: `mode_equiv_partial`, the case `threshold_bp = 0` (sizes below 2^50): `Index.find` with the best-only
-   threshold raising returns an arg-max of the containment `fl(k / n)`, and `fl(k / n)` is strictly increasing
-   in `k` (`F64.divNat_strict_mono`), so both modes pick a sketch of maximal overlap.
-   Missing for `threshold_bp > 0`: that `Index.peek`'s threshold `fl(fl(threshold_bp / scaled) / n)` accepts
-   exactly the overlaps `k ≥ fl(threshold_bp / scaled)` that `CounterGather.peek` accepts (monotonicity of
-   correctly rounded division in both directions; the `partition` stream compares the two modes on every case).
-   Without `NoD6` (query finer than the database, threshold_bp > 0) the statement is FALSE: -/
+/- FULL STATEMENT (false without the input condition): mode_equiv for every input — a prefetch-mode run
+   (`counter_gather` + `CounterGather.peek`) and an on-demand run (`Index.peek` = `best_containment` each round)
+   over the same sketches satisfy the conclusion of `gather_partition`.
+   Proved below (`mode_equiv`) for `threshold_bp = 0` or a query at least as coarse as the database: `Index.peek`'s
+   threshold `fl(fl(threshold_bp / scaled) / n)` accepts exactly the overlaps `k` with `threshold_bp ≤ k·scaled`,
+   and so does `CounterGather.peek`'s test `k ≥ fl(threshold_bp / scaled)` (`Sm.C07.threshold_tests_exact`);
+   `Index.find` with the best-only threshold raising returns an arg-max of `fl(k / n)`, which is strictly
+   increasing in `k` (`F64.divNat_strict_mono`); an unattainable threshold stops both modes.
+   For a query finer than the database and threshold_bp > 0 the statement is FALSE (finding D6m): -/
 theorem gather_modes_differ_under_d6 : modeCheck = true := modeCheck_true
 
-/-- `mode_equiv` for `threshold_bp = 0` (see the comment block above) -/
-theorem mode_equiv_partial (lawsA : ScoreLaws ops) (lawsB : IdxLaws ops) {q : LS} {sd : Nat} {t nT : F64.F}
+/-- **`mode_equiv`** on inputs without D6 (see the comment block above) -/
+theorem mode_equiv (lawsA : ScoreLaws ops) (lawsB : IdxLaws ops) {q : LS} {sd thr : Nat} {t nT : F64.F}
     {dbs dbs' : List (List (Sig LS))} {Q0 NI0 : List Nat} {g0 h0 g h g' h' : GD LS}
-    {rA rB : Option (GRes σ)}
-    (A : RunSetup q sd 0 t nT dbs Q0 NI0 g0) (B : IdxSetup q.scaled sd dbs' Q0 NI0 h0)
+    {rA rB : Option (GRes σ)} (hin : thr = 0 ∨ sd ≤ q.scaled) (hthr50 : thr ≤ 2 ^ 50) (hsd : sd ≤ 2 ^ 31)
+    (A : RunSetup q sd thr t nT dbs Q0 NI0 g0) (B : IdxSetupT thr q.scaled sd dbs' Q0 NI0 h0)
     (hperm : dbs.flatten.Perm dbs'.flatten)
     (hrA : Reach ops g0 g) (hrB : Reach ops h0 h) (rel : Rel q.scaled sd g h)
     (hnA : g.next lsOps ops = .ok (g', rA)) (hnB : h.next lsOps ops = .ok (h', rB)) :
@@ -185,16 +187,37 @@ theorem mode_equiv_partial (lawsA : ScoreLaws ops) (lawsB : IdxLaws ops) {q : LS
           SameNumbers a b ∧ Rel q.scaled sd g' h')
     | none, some _ => False
     | some _, none => False :=
-  mode_equiv_thr0 lawsA lawsB A B hperm hrA hrB rel hnA hnB
+  mode_equiv_noD6 lawsA lawsB hin hthr50 hsd A B hperm hrA hrB rel hnA hnB
 
-/-- the on-demand hypotheses hold after `GatherDatabases.__init__(query, [index, ...], threshold_bp=0)` -/
-theorem mode_equiv_init {q : LS} (hq : q.WF) {sd : Nat} (hsd1 : 1 ≤ sd) (hsd2 : sd ≤ 2 ^ 31)
+/-- each on-demand round reports a sketch of maximal overlap among the ELIGIBLE ones (non-empty overlap worth at
+least `threshold_bp` base pairs) and stops exactly when no sketch is eligible (`RoundT`); the invariants are
+kept -/
+theorem ondemand_round (laws : IdxLaws ops) {thr sq sd : Nat} {dbs : List (List (Sig LS))} {Q0 NI0 : List Nat}
+    {g g' : GD LS} {r : Option (GRes σ)} (hin : thr = 0 ∨ sd ≤ sq) (hthr50 : thr ≤ 2 ^ 50)
+    (B : IdxSetupT thr sq sd dbs Q0 NI0 g) (hn : g.next lsOps ops = .ok (g', r)) :
+    RoundT ops thr sq sd dbs.flatten Q0 NI0 g g' r ∧ IdxSetupT thr sq sd dbs Q0 NI0 g' := by
+  obtain ⟨i1, i2, i3, i4, i5⟩ := roundT_idx laws hin hthr50 B.inv B.acc B.thr B.size hn
+  exact ⟨i1, i2, i3, i4, i5⟩
+
+/-- the hypotheses of the prefetch-mode side follow from the inputs: `NoD6` is implied by the input condition -/
+theorem run_setup_of_inputs {q : LS} {sd thr : Nat} {t nT : F64.F} {dbs : List (List (Sig LS))}
+    {Q0 NI0 : List Nat} {g0 : GD LS} (hq : q.WF)
+    (hdb : ∀ db ∈ dbs, ∀ d ∈ db, d.mh.WF ∧ d.mh.scaled = sd)
+    (hthr : calcThreshold thr q.scaled q.hs.length = .ok (t, nT)) (hin : thr = 0 ∨ sd ≤ q.scaled)
+    (hthr53 : thr < 2 ^ 53) (hsize : q.hs.length < 2 ^ 53)
+    (h0 : GInv q.scaled sd (candLists q t dbs) g0) (a0 : AInv q.scaled sd Q0 NI0 g0)
+    (hun0 : g0.unassigned q.scaled sd = dn (max q.scaled sd) q.hs) (hthr0 : g0.thresholdBp = thr) :
+    RunSetup q sd thr t nT dbs Q0 NI0 g0 :=
+  ⟨hq, hdb, hthr, noD6_of_inputs hq hthr53 hsize hthr hin, hsize, h0, a0, hun0, hthr0⟩
+
+/-- the on-demand hypotheses hold after `GatherDatabases.__init__(query, [index, ...], threshold_bp)` -/
+theorem mode_equiv_init {q : LS} (hq : q.WF) {sd thr : Nat} (hsd1 : 1 ≤ sd) (hsd2 : sd ≤ 2 ^ 31)
     {dbs : List (List (Sig LS))} {ign : Bool} {g : GD LS}
     (hdb : ∀ db ∈ dbs, ∀ d ∈ db, d.mh.WF ∧ d.mh.scaled = sd) (hsize : q.hs.length < 2 ^ 50)
-    (h : GD.init lsOps q (dbs.map CObj.idx) 0 ign none none = .ok g) :
-    IdxSetup q.scaled sd dbs q.hs [] g ∧ g.unassigned q.scaled sd = dn (max q.scaled sd) q.hs ∧
+    (h : GD.init lsOps q (dbs.map CObj.idx) thr ign none none = .ok g) :
+    IdxSetupT thr q.scaled sd dbs q.hs [] g ∧ g.unassigned q.scaled sd = dn (max q.scaled sd) q.hs ∧
     g.origSigMh = q ∧ g.resultN = 0 :=
-  init_idx hq hsd1 hsd2 hdb hsize h
+  init_idxT hq hsd1 hsd2 hdb hsize h
 
 /-! ### non-vacuity -/
 
